@@ -25,6 +25,8 @@ func (ex *Exec) execInstr(fr *Frame, in ssa.Instruction, st *State) {
 			o.Local = !i.Heap
 			fr.allocs[i] = o
 		}
+		fr.seqCtr++
+		fr.allocSeq[i] = fr.seqCtr
 		// (re)zero
 		ex.zeroObj(st, o)
 		fr.vals[i] = &Val{K: KPtr, Typ: i.Type(), IsNil: False, Tg: []Target{{G: True, Loc: Loc{Obj: o}}}}
